@@ -127,4 +127,30 @@ func c13MapOrder(r *chk.Run) {
 	r.Phase("map-range-permutations", body, chk.PhaseOpts{Bound: bound, SplitLen: 3})
 }
 
-func init() { c13MapOrderFn = c13MapOrder }
+// c13SharedState explores instance interleavings with additional yield points inside the library:
+// before every statement that touches package-level state some function modifies (inserted by
+// cmd/maprewrite from the working tree). On a tree without such state there is nothing to explore.
+func c13SharedState(r *chk.Run) {
+	if mcap.VerifYieldSites == 0 {
+		r.Count("interleavings-at-shared-state", 1, 0, 1, true, map[string]any{"shared_state_yield_sites": 0,
+			"note": "go/mcap has no package-level state that any of its functions modifies (go/types scan of the working tree): instances cannot interfere through the library, nothing to interleave below API-call granularity"})
+		return
+	}
+	hits := 0
+	c13SchedHook = func(s *coSched) {
+		mcap.VerifYield = func(string) {
+			hits++
+			s.yieldCurrent()
+		}
+	}
+	c13SchedDone = func() { mcap.VerifYield = nil }
+	r.Phase("interleavings-at-shared-state", c13InterleaveOn(2, c13CollidingWorkloads()), chk.PhaseOpts{Bound: 2, SplitLen: 4, Share: 0.3})
+	c13SchedHook, c13SchedDone = nil, nil
+}
+
+func init() {
+	c13MapOrderFn = func(r *chk.Run) {
+		c13MapOrder(r)
+		c13SharedState(r)
+	}
+}
